@@ -47,6 +47,15 @@ def _local_simplification(a: ast.Lambda) -> ast.Lambda:
     return r
 
 
+def _is_same_value(a: Any, b: Any) -> bool:
+    """Is `b` the value `a` again? `1`, `1.0` and `True` are different values here, and
+    values that cannot tell (an array compared with `==`) are not the same."""
+    try:
+        return type(a) is type(b) and bool(a == b) and repr(a) == repr(b)
+    except Exception:
+        return False
+
+
 class ObjectStream(Generic[T]):
     r"""
     The objects can be events, jets, electrons, or just floats, or arrays of floats.
@@ -227,7 +236,7 @@ class ObjectStream(Generic[T]):
             add_md = False
             if found_md is None:
                 add_md = True
-            elif found_md != v:
+            elif not _is_same_value(found_md, v):
                 logging.getLogger(__name__).info(
                     f'Overwriting metadata "{k}" from its old value of "{found_md}" to "{v}"'
                 )
